@@ -282,7 +282,7 @@ func (n namedField) SetValue(opts *options, elem value, v value) Error {
 	}
 
 	if old, ok := sub.c.fields.get(n.name); ok && old != v {
-		detach(sub.c, old)
+		detach(sub.c, n.name, old)
 	}
 	sub.c.fields.set(n.name, v)
 	v.SetContext(context{parent: elem, field: n.name})
@@ -292,13 +292,15 @@ func (n namedField) SetValue(opts *options, elem value, v value) Error {
 // detach makes a config that is taken out of parent a root again: its handle
 // must not go on naming parent as the place it lives in (Path, Parent, the
 // cycle check of SetChild). A config that was attached to another parent
-// first still belongs there.
-func detach(parent *Config, old value) {
+// first - or is attached to parent under another name as well - still belongs
+// there.
+func detach(parent *Config, field string, old value) {
 	sub, ok := old.(cfgSub)
 	if !ok {
 		return
 	}
-	if p, ok := sub.c.ctx.parent.(cfgSub); ok && p.c.fields == parent.fields {
+	ctx := sub.c.ctx
+	if p, ok := ctx.parent.(cfgSub); ok && p.c.fields == parent.fields && ctx.field == field {
 		sub.c.ctx = context{}
 	}
 }
@@ -317,7 +319,7 @@ func (i idxField) SetValue(opts *options, elem value, v value) Error {
 	}
 
 	if arr := sub.c.fields.array(); i.i < len(arr) && arr[i.i] != nil && arr[i.i] != v {
-		detach(sub.c, arr[i.i])
+		detach(sub.c, i.String(), arr[i.i])
 	}
 	sub.c.fields.setAt(i.i, elem, v)
 	v.SetContext(context{parent: elem, field: i.String()})
@@ -368,7 +370,7 @@ func (n namedField) Remove(opts *options, elem value) (bool, Error) {
 	}
 
 	if old, ok := sub.c.fields.get(n.name); ok {
-		detach(sub.c, old)
+		detach(sub.c, n.name, old)
 	}
 	removed := sub.c.fields.del(n.name)
 	return removed, nil
@@ -381,7 +383,7 @@ func (i idxField) Remove(opts *options, elem value) (bool, Error) {
 	}
 
 	if arr := sub.c.fields.array(); i.i >= 0 && i.i < len(arr) && arr[i.i] != nil {
-		detach(sub.c, arr[i.i])
+		detach(sub.c, i.String(), arr[i.i])
 	}
 	removed := sub.c.fields.delAt(i.i)
 	return removed, nil
